@@ -18,7 +18,16 @@ type ('sh, 'ts, 'l, 'op, 'ret) comp = {
   prefill : (string * string) list -> int list -> 'op list;
   final_prog : (string * string) list -> int list -> string list list -> 'op list;
   final_digest : 'ret list -> string;
+  pc_of : 'l -> Obj.t;          (* the program-counter constructor inside a local state *)
 }
+
+(* coverage of model program counters: kind -> set of constructor keys *)
+let coverage : (string, (string, unit) Hashtbl.t) Hashtbl.t = Hashtbl.create 8
+let cover kind (o : Obj.t) =
+  let key = if Obj.is_int o then "c" ^ string_of_int (Obj.obj o : int) else "b" ^ string_of_int (Obj.tag o) in
+  let tbl = match Hashtbl.find_opt coverage kind with
+    | Some t -> t | None -> let t = Hashtbl.create 64 in Hashtbl.add coverage kind t; t in
+  if not (Hashtbl.mem tbl key) then Hashtbl.add tbl key ()
 
 let fuel = nat_of_int 64
 
@@ -89,7 +98,20 @@ let process_runs (type sh ts l op ret) (c : (sh, ts, l, op, ret) comp) (s : scn)
       | [] -> Ok cfg
       | t :: rest ->
         (match replay_step c.mach fuel cfg (nat_of_int (t + 1)) with
-         | Some (cfg', evs) -> add_evs evs; go cfg' rest (pos + 1)
+         | Some (cfg', evs) ->
+           (* coverage only: redo the step one access at a time to see the silent pcs too *)
+           let rec cov cfg n =
+             if n > 0 then
+               match step_thread c.mach cfg (nat_of_int (t + 1)) with
+               | Some (c1, _) ->
+                 (match List.nth_opt c1.c_thr (t + 1) with
+                  | Some { t_cur = Some (_, l); _ } ->
+                    cover s.kind (c.pc_of l);
+                    if c.mach.m_silent l then cov c1 (n - 1)
+                  | _ -> ())
+               | None -> () in
+           cov cfg 8;
+           add_evs evs; go cfg' rest (pos + 1)
          | None -> Error pos)
     in
     let fine = List.mem_assoc "fine" s.opts in
@@ -189,13 +211,13 @@ let queue_digest iter rets =
 let jdk_comp = {
   mach = jdk; sh0 = (fun _ _ -> qinit); ts0 = qiter0; parse_op = parse_qop; show_ret = show_qret;
   prefill = (fun _ pre -> List.map (fun v -> Offer (nat_of_int v)) pre);
-  final_prog = queue_final true; final_digest = queue_digest true;
+  final_prog = queue_final true; final_digest = queue_digest true; pc_of = (fun l -> Obj.repr l.l_pc);
 }
 
 let mutex_comp = {
   mach = mutexq; sh0 = (fun _ _ -> minit); ts0 = (); parse_op = parse_qop; show_ret = show_qret;
   prefill = (fun _ pre -> List.map (fun v -> Offer (nat_of_int v)) pre);
-  final_prog = queue_final false; final_digest = queue_digest false;
+  final_prog = queue_final false; final_digest = queue_digest false; pc_of = Obj.repr;
 }
 
 (* adders *)
@@ -213,7 +235,7 @@ let adder_digest rets = String.concat "," (List.map show_aret rets)
 let opt_int opts k d = match List.assoc_opt k opts with Some v -> int_of_string v | None -> d
 let adder_comp mach sh0 = {
   mach; sh0; ts0 = (); parse_op = parse_aop; show_ret = show_aret;
-  prefill = (fun _ _ -> []); final_prog = adder_final; final_digest = adder_digest;
+  prefill = (fun _ _ -> []); final_prog = adder_final; final_digest = adder_digest; pc_of = Obj.repr;
 }
 
 (* ---------------------------------------------------------------- main loop *)
@@ -255,4 +277,6 @@ let () =
        | _ -> ()
      done
    with End_of_file -> ());
+  Hashtbl.iter (fun kind tbl ->
+      Printf.printf "COV %s %s\n" kind (String.concat " " (Hashtbl.fold (fun k () acc -> k :: acc) tbl []))) coverage;
   Printf.printf "TOTAL runs=%d mismatches=%d\n" !total_runs !mismatches
